@@ -146,6 +146,11 @@ CONFIGS = [
     {"cls": "VariationalCircuitAnsatz"},
     {"cls": "ADAPTAnsatz", "mol": "H2", "opts": {"mapping": "jw"}},
     {"cls": "QMF", "mol": "H2", "opts": {"mapping": "jw"}}, {"cls": "QCC", "mol": "H2", "opts": {"mapping": "jw"}}, {"cls": "ILC", "mol": "H2", "opts": {"mapping": "jw"}},
+    # constructor options almost nobody passes: the all-zero reference state, the one-angle ("real") rotation layers of HEA, HEA without a molecule
+    {"cls": "UCCSD", "mol": "H2", "opts": {"mapping": "jw", "reference_state": "zero"}}, {"cls": "UpCCGSD", "mol": "H2", "opts": {"mapping": "jw", "k": 2, "reference_state": "zero"}},
+    {"cls": "UCCGD", "mol": "H2", "opts": {"mapping": "bk", "reference_state": "zero"}}, {"cls": "pUCCD", "mol": "H2", "opts": {"reference_state": "zero"}},
+    {"cls": "HEA", "mol": "H2", "opts": {"mapping": "jw", "n_layers": 2, "rot_type": "real"}}, {"cls": "HEA", "mol": "H2", "opts": {"mapping": "bk", "n_layers": 1, "reference_state": "zero"}},
+    {"cls": "HEA", "opts": {"n_qubits": 3, "n_electrons": 2, "mapping": "jw", "n_layers": 1, "rot_type": "real"}},
 ]
 HEAVY = [
     {"cls": "UCCSD", "mol": "H4", "opts": {"mapping": "jw"}}, {"cls": "UpCCGSD", "mol": "H4", "opts": {"mapping": "jw", "k": 3}},
